@@ -26,6 +26,10 @@ m = {
     "engines": [
         {"name": "verus-extract", "path": "/verif/vt", "serves_properties": sorted(PROPS.keys()),
          "kind_free_text": "contract-based deductive verification: functions cut verbatim from /repo/src on every run, contracts spliced at syntactic anchors, discharged by Verus/Z3; replay driver linked to /repo searches a concrete failing input when an obligation fails"},
+        {"name": "kani-harness", "path": "/verif/kani", "serves_properties": sorted(k for k, v in PROPS.items() if v.get("kani")),
+         "kind_free_text": "Kani/CBMC harness on the public API of /repo: loop-free over the full finite domain (complete); discharges the contract the Verus unit assumes for TryFrom<&[u8]> for UIntValue; runs in both tiers"},
+        {"name": "replay-driver + bounded searchers", "path": "/verif/replay", "serves_properties": sorted(k for k, v in PROPS.items() if v.get("searchers")),
+         "kind_free_text": "bounded stand-ins, labelled bounded and never counted as proved: generators with an independent executable transcription of the specification drive the real crate (built from /repo with overflow checks and debug assertions on); they cover code outside the contracts and supply the failing input for failed obligations"},
     ],
     "checks": [],
     "not_applicable": [],
@@ -43,7 +47,9 @@ for pid in ids:
             "engine": "verus-extract",
             "level_claimed": {"category": p.get("level", "proof"), "text": p["claim"], "design_ref": "DESIGN.md section 7, " + pid},
             "level_note": p["note"],
-            "technique": p.get("technique", "contract-based deductive verification (Verus) of functions extracted verbatim from /repo"),
+            "technique": p.get("technique", "contract-based deductive verification (Verus) of functions extracted verbatim from /repo on every run"
+                               + ("; Kani harness (complete) for the one contract Verus cannot take" if p.get("kani") else "")
+                               + "; bounded searchers on the real crate as labelled stand-in for the code outside the contracts"),
         })
     elif pid in NOT_APPLICABLE:
         m["not_applicable"].append({"property_id": pid, "reason": NOT_APPLICABLE[pid]})
